@@ -52,4 +52,37 @@ func TestRace(t *testing.T) {
 			a.Shutdown()
 		}
 	}
+	// the same with the Hookaidofile unchanged and the credential VALUE rotated behind a file / environment reference
+	// (extvalue_test.go): reload || requests carrying the credential of the old value (twice), of the new value, none
+	for _, k := range extSchedCases(false) {
+		for it := 0; it < 8; it++ {
+			s := k.site
+			w, es, _, err := extBoot(extCase{site: s, carrier: k.carrier}, 0, filepath.Join(runner.Scratch(), "race08-ext"), func(string, ...any) {})
+			if err != nil {
+				t.Fatal(err)
+			}
+			now := time.Now()
+			if it%2 == 1 {
+				w.a.Ingress.ServeHTTP(httptest.NewRecorder(), mkRequest(s.cred(s.A)("warm", now)))
+			}
+			if err := es.set(extStates[extStateByName(k.target)], s); err != nil {
+				t.Fatal(err)
+			}
+			reqs := []*http.Request{mkRequest(s.cred(s.A)("r0", now)), mkRequest(s.cred(s.B)("r1", now)), mkRequest(noCred("r2", now)), mkRequest(s.cred(s.A)("r3", now))}
+			var wg sync.WaitGroup
+			wg.Add(1 + len(reqs))
+			go func() { defer wg.Done(); w.a.Reload("race") }()
+			for _, hr := range reqs {
+				hr := hr
+				go func() {
+					defer wg.Done()
+					w.a.Ingress.ServeHTTP(httptest.NewRecorder(), hr)
+				}()
+			}
+			wg.Wait()
+			w.a.Ingress.ServeHTTP(httptest.NewRecorder(), mkRequest(s.cred(s.A)("after", now)))
+			w.a.Shutdown()
+			es.close()
+		}
+	}
 }
